@@ -88,7 +88,7 @@ fn large_texts() -> Texts {
 /// configuration (so that the *second* literal sits exactly where the formatter wants it) and then
 /// the first literal is moved to another indentation: only the first one needs re-indenting.
 pub struct TwoLits;
-const TL_TAILS: [&str; 4] = ["", ".Trim", ".B(11 + 11 + 11)", ".Format([aaaaaaaa, bbbbbbbb, cccccccc])"];
+const TL_TAILS: [&str; 6] = ["", ".Trim", ".B(11 + 11 + 11)", ".Format([aaaaaaaa, bbbbbbbb, cccccccc])", ".Contains(aaaaaaaa) or bbbbbbbb or cccccccc", ".Length div 2 mod 3 in [aaaaaaaa .. bbbbbbbb]"];
 const TL_JOINS: [(&str, &str, &str); 3] = [("x := ", " + ", ";"), ("f(", ", ", ");"), ("x := y + ", " + 'z' + ", ".Trim;")];
 const TL_BASES: [&str; 5] = ["                                        ", "", "\t", "            ", "  "];
 const TL_BODIES: [&str; 3] = ["a", "a\n%b", "\n%a  "];
@@ -141,6 +141,10 @@ impl TextSource for TwoLits {
     fn get(&self, idx: u64, buf: &mut String) {
         *buf = Self::build(idx);
     }
+}
+/// the default configuration at a range of narrow widths (re-flow after re-indentation is width sensitive)
+fn lit_wraps() -> Vec<Cfg> {
+    [16u32, 20, 24, 28, 32, 36, 40, 50, 60].iter().map(|w| cfg::DEFAULT.with(|c| c.wrap = *w)).collect()
 }
 fn two_lits() -> TwoLits {
     TwoLits
@@ -859,6 +863,32 @@ fn deep_c06(g: &Arc<Grammar>, d: usize, max_depth: usize, cfgs: &[Cfg]) -> Box<d
     })
 }
 
+/// C02 with the generator's knowledge of which words are identifiers
+fn c02_ident_family(g: &Arc<Grammar>, d: usize, cfgs: &[Cfg]) -> Box<dyn Family> {
+    pf(
+        "c02ident",
+        g,
+        d,
+        cfgs,
+        Box::new(move |_g, toks, c, ctx| {
+            if !toks.iter().any(|t| t.marks & crate::grammar::M_I != 0) {
+                return;
+            }
+            let mut first = true;
+            for x in progs::base_texts(toks) {
+                if !first {
+                    ctx.sub_eval();
+                }
+                first = false;
+                let out = ctx.fmt(c, &x);
+                if o2::c02(&x, &out, c, ctx) {
+                    o2::c02_identifiers(&x, toks, &out, c, ctx);
+                }
+            }
+        }),
+    )
+}
+
 fn c05_family(g: &Arc<Grammar>, d: usize, cfgs: &[Cfg], flips: bool, comments: bool) -> Box<dyn Family> {
     pf(
         "c05",
@@ -1079,6 +1109,8 @@ pub fn families(check: &str, tier: &str) -> Vec<Box<dyn Family>> {
                     seed_texts("c02", &wf_seeds(), &C_QUICK, f_c02),
                     tf("c02", lit_texts(2), &C_QUICK[..2], wf_lits(f_c02)),
                     deep_variants("c02", &g(1), 1, 12, &C_QUICK[..3], f_c02),
+                    c02_ident_family(&g(2), 2, &C_QUICK[..2]),
+                    tf("c02", two_lits(), &lit_wraps(), wf_lits(f_c02)),
                 ]
             } else {
                 vec![
@@ -1088,6 +1120,8 @@ pub fn families(check: &str, tier: &str) -> Vec<Box<dyn Family>> {
                     seed_texts("c02", &wf_seeds(), &full, f_c02),
                     tf("c02", lit_texts(2), &C_QUICK, wf_lits(f_c02)),
                     deep_variants("c02", &g(1), 1, 24, &C_QUICK, f_c02),
+                    c02_ident_family(&g(3), 3, &C_QUICK[..2]),
+                    tf("c02", two_lits(), &lit_wraps(), wf_lits(f_c02)),
                 ]
             }
         }
@@ -1099,7 +1133,7 @@ pub fn families(check: &str, tier: &str) -> Vec<Box<dyn Family>> {
                     seed_texts("c03", &wf_seeds(), &C_QUICK, f_c03),
                     tf("c03", lit_texts(2), &C_QUICK[..2], wf_lits(f_c03)),
                     deep_variants("c03", &g(1), 1, 12, &C_QUICK[..3], f_c03),
-                    tf("c03", two_lits(), &[cfg::DEFAULT, C_QUICK[1]], wf_lits(f_c03)),
+                    tf("c03", two_lits(), &lit_wraps(), wf_lits(f_c03)),
                 ]
             } else {
                 vec![
